@@ -85,7 +85,7 @@ def gen_random(cls, rng, count):
                 # lookups (is_connected both ways, a try_connect that may be refused): they must not retain handles
                 steps.append(rng.choice(["oqry %d %d" % (a, b), "oqry %d %d" % (a, b), "otry %d %d %d" % (a, b, rng.randint(0, 30))]))
             elif r < 0.30 and not dropped_any:
-                steps.append(rng.choice(["odis %d %d" % (a, keys[b]), "oiso %d" % a, "otry %d %d %d" % (a, b, rng.randint(0, 30))]))
+                steps.append(rng.choice(["odis %d %d" % (a, keys[b]), "oiso %d" % a, "otry %d %d %d" % (a, b, rng.randint(0, 30)), "oexer %d" % a, "oexer %d" % a]))
             elif r < 0.38:
                 steps.append("oclone %d %d" % (rng.choice(NODE_SLOTS), a))
                 dropped_any = True     # overwriting a slot drops its previous content
@@ -174,6 +174,7 @@ def gen_lookup(cls, rng, count):
                     steps += ["odis %d %d" % (a, keys[b]), "ocon %d %d %d" % (a, b, rng.randint(0, 30)), "oqry %d %d" % (a, b)]
                 else:
                     steps.append("oqry %d %d" % (b, a))
+        steps += ["oexer %d" % rng.randrange(n) for _ in range(rng.randint(0, 2))]
         if rng.random() < 0.25:
             steps.append("oiso %d" % rng.randrange(n))
         drops = list(ALL_SLOTS)
